@@ -26,7 +26,7 @@ class World:
     probe_min_runs = 600
     required_probes = ["jit_equals_all", "recalculate_after_dense_change", "next_past_grid", "refused_mode_misuse",
                        "apply_single_time", "apply_time_axis", "operator_form_tensor", "secular_tensor",
-                       "redfield_tensor_rwa", "semigroup_checked", "dense_gt_1", "save_mode_jit", "at_checked",
+                       "redfield_tensor_rwa", "semigroup_checked", "dense_gt_1", "save_mode_jit", "at_checked", "apply_inside_context",
                        "calculate_twice"]
     required_faults = ["mode_misuse"]
     components = {
@@ -66,7 +66,7 @@ class World:
                 ops.append({"op": "at", "k": rng.randrange(64), "which": rng.choice(["all", "jit"])})
             elif k == "apply":
                 ops.append({"op": "apply", "k": rng.randrange(64), "how": rng.choice(["single", "single", "axis", "list", "all", "array"]),
-                            "copy": rng.random() < 0.5, "pay": rng.randrange(1 << 30)})
+                            "copy": rng.random() < 0.5, "pay": rng.randrange(1 << 30), "ctx": rng.random() < 0.3})
             else:
                 ops.append({"op": k})
         return {"N": N, "kind": kind, "Nt": Nt, "dt": dt, "seed": rng.randrange(1 << 30),
@@ -363,6 +363,40 @@ class Runner:
                 return
         how = op["how"]
         data = numpy.array(Uall.data)
+        if op.get("ctx") and not getattr(self.ham, "has_rwa", False):
+            # the same request made inside the eigenbasis of the Hamiltonian (first access of the superoperator there);
+            # everything comes back to the site basis when the context is left and must equal direct propagation
+            import contextlib
+            how2 = how
+            try:
+                with qr.eigenbasis_of(self.ham):
+                    if how2 == "single":
+                        k = op["k"] % Nt
+                        res = Uall.apply(float(self.time.data[k]), rho, copy=True)
+                    elif how2 == "all":
+                        res = Uall.apply("all", rho)
+                    elif how2 == "axis":
+                        res = Uall.apply(self.time, rho)
+                    elif how2 == "array":
+                        res = Uall.apply([float(x) for x in self.time.data[:max(2, Nt // 2)]], rho)
+                    else:
+                        res = Uall.apply(qr.TimeAxis(0.0, max(2, Nt // 2), p["dt"]), rho)
+            except Exception as e:
+                raise Violation("apply-raises", "op %d: apply(%s) inside eigenbasis_of(H): %s: %s" % (i, how2, type(e).__name__, e))
+            got = numpy.array(res.data)
+            if how2 == "single":
+                exp = direct[k]
+            else:
+                exp = direct[:got.shape[0]]
+            check(got.shape == exp.shape and close(got, exp, rtol=0, atol=1e-9 * (1 + Nt)), "apply-in-context-reproduces-propagation",
+                  lambda: "op %d: apply(%s, rho) requested inside eigenbasis_of(H), read outside: %s" % (i, how2, maxdiff(got, exp)))
+            after = numpy.array(Uall.data)
+            check(close(after, data, rtol=0, atol=1e-10), "apply-in-context-changed-superoperator",
+                  lambda: "op %d: the superoperator differs after apply(%s) inside a context: %s" % (i, how2, maxdiff(after, data)))
+            self.ctx.probe("apply_inside_context")
+            self.ctx.ev(i, "apply-ctx", how2, fingerprint(got))
+            self.ctx.cov("apply-ctx", how2)
+            return
         if how == "single":
             k = op["k"] % Nt
             try:
